@@ -5,7 +5,7 @@
    only by their stated contracts. *)
 From Coq Require Import ZArith List Bool Permutation.
 Import ListNotations.
-From SCMO Require Import Lib.Val Model.C05 Proofs.C05_a Proofs.C05_b Proofs.C05.
+From SCMO Require Import Lib.Val Model.C05 Model.C05x Proofs.C05_a Proofs.C05_b Proofs.C05 Proofs.C05x_a Proofs.C05x.
 Open Scope Z_scope.
 
 (* ---- the job list of tag_multiome_multi_processing (one contig per process) *)
@@ -217,3 +217,316 @@ Example C05_demo :
   contig_jobs (contigs_with_reads demo_hdr demo_recs) = [[None]; [Some 0]; [Some 1]].
 Proof. exact (conj demo_pre demo_runs). Qed.
 Print Assumptions C05_demo.
+
+(* ======================================================================================================
+   Contig selection: -contig <name> (sc) and -skip_contig a,b (skip)   [Model/C05x.v]
+   The property text speaks of default options; these theorems say what the selection options do in each
+   way of running, for the code AS CODED ([cpp_jobs false], [multi_sel ... false]) and for the job loop with
+   the whitelist test suggested in fixes/C05-D31.patch ([cpp_jobs true], [multi_sel ... true]).
+   "wanted" records: [want_rec sc skip r] = r is unplaced (the '*' bin is ALWAYS iterated, whatever the
+   selection) or r lies on the selected contig (any contig when -contig is absent) and not on a skipped one.
+   ====================================================================================================== *)
+
+(* ---- job lists *)
+
+(* one contig per process AS CODED: the job list never looks at the selection - the unplaced bin and EVERY
+   contig with reads, each exactly once, in order; for every -contig / -skip_contig *)
+Theorem C05_sel_jobs_as_coded : forall (sc : option cname) (skip : list cname) (cwr : list (cname * Z)),
+  concat (cpp_jobs false sc skip cwr) = None :: filter (fun c => negb (is_star c)) (map fst cwr).
+Proof. exact cpp_jobs_as_coded_concat. Qed.
+Print Assumptions C05_sel_jobs_as_coded.
+
+(* hence "no unselected contig is scheduled" fails for the code as coded: -contig 1 (or -skip_contig 2) and
+   contig 2 still gets a job *)
+Theorem C05_sel_jobs_honour_refuted :
+  let cwr := [(Some 1, 500); (Some 2, 5000000)] in
+  In (Some 2) (concat (cpp_jobs false (Some (Some 1)) [] cwr)) /\
+  cmem (Some 2) (whitelist (Some (Some 1)) [] cwr) = false /\
+  In (Some 2) (concat (cpp_jobs false None [Some 2] cwr)) /\
+  cmem (Some 2) (whitelist None [Some 2] cwr) = false.
+Proof. exact cpp_jobs_as_coded_refuted. Qed.
+Print Assumptions C05_sel_jobs_honour_refuted.
+
+(* one contig per process with the whitelist test: the unplaced bin and exactly the whitelisted contigs with
+   reads, each once *)
+Theorem C05_sel_jobs_repaired : forall (sc : option cname) (skip : list cname) (cwr : list (cname * Z)),
+  NoDup (map fst cwr) ->
+  NoDup (concat (cpp_jobs true sc skip cwr)) /\
+  (forall c : cname,
+     In c (concat (cpp_jobs true sc skip cwr)) <->
+     c = None \/ In c (map fst cwr) /\ cmem c (whitelist sc skip cwr) = true).
+Proof. exact cpp_jobs_repaired_spec. Qed.
+Print Assumptions C05_sel_jobs_repaired.
+
+(* binned mode (as coded): bp_chunked loses and repeats nothing - the jobs, concatenated, are the '*' task
+   followed by the regions; a header contig gets exactly its regions when it is whitelisted and none
+   otherwise; every region lies on a whitelisted header contig.  [bins] is any tiling function (C17) *)
+Theorem C05_sel_jobs_binned :
+  forall (bins : Z -> list region) (wl : list cname) (hdr : list (Z * Z)) (k : Z),
+  concat (binned_jobs bins wl hdr k) = (None, None) :: regions bins wl hdr /\
+  (NoDup (map fst hdr) -> forall c len, In (c, len) hdr ->
+     filter (on_contig c) (regions bins wl hdr) =
+     if cmem (Some c) wl then map (fun b => (Some c, Some b)) (bins len) else []) /\
+  (forall t, In t (regions bins wl hdr) ->
+     exists c len b, t = (Some c, Some b) /\ In (c, len) hdr /\ cmem (Some c) wl = true /\ In b (bins len)).
+Proof.
+  exact (fun bins wl hdr k => conj (binned_jobs_concat bins wl hdr k)
+           (conj (fun H c len => regions_per_contig bins wl hdr c len H) (regions_selected bins wl hdr))).
+Qed.
+Print Assumptions C05_sel_jobs_binned.
+
+(* ---- MoleculeIterator's skip_contigs test acts on whole pairs; on mates that lie on one contig it keeps
+   exactly the (primary) records that are not on a skipped contig *)
+Theorem C05_sel_pair_filter :
+  forall (qflag : bool) (skip : list cname) (stream : list rec) (fs : list frag),
+  pre_stream qflag stream ->
+  coloc stream ->
+  fragments_sel qflag skip stream = Ok fs ->
+  Permutation (map key (flat_map frag_recs fs))
+              (map key (map norm (expected qflag (filter (rec_kept skip) stream)))).
+Proof. exact fragments_sel_conserve. Qed.
+Print Assumptions C05_sel_pair_filter.
+
+(* ---- conservation under a selection, default yield options *)
+
+(* single process (as coded): exactly the wanted records, each once *)
+Theorem C05_sel_conserve_single :
+  forall (sort : list orec -> list orec) (valid : frag -> bool)
+         (it : bool -> bool -> list frag -> list (list frag) * list frag) (qflag : bool) (skip : list cname),
+  (forall l, Permutation (sort l) l) ->
+  iter_contract valid it ->
+  forall (sc : option cname) (hdr : list (Z * Z)) (recs : list rec),
+  NoDup (map fst hdr) ->
+  (forall r, In r recs -> placed_in (map fst hdr) r = true) ->
+  forall b : bam,
+  pre_stream qflag recs ->
+  coloc recs ->
+  sc_ok sc (map fst hdr) = true ->
+  single_sel sort it qflag true true sc skip hdr recs = Ok b ->
+  Permutation (map key (map fst (snd b))) (map key (map norm (expected qflag (filter (want_rec sc skip) recs)))).
+Proof. exact single_sel_conserve. Qed.
+Print Assumptions C05_sel_conserve_single.
+
+(* one contig per process AS CODED, any completion order: -contig has no effect at all; what is written is
+   every (primary) record that is not on a skipped contig *)
+Theorem C05_sel_conserve_multi_as_coded :
+  forall (sort : list orec -> list orec) (merge : list bam -> bam) (valid : frag -> bool)
+         (it : bool -> bool -> list frag -> list (list frag) * list frag) (qflag : bool) (skip : list cname),
+  (forall l, Permutation (sort l) l) ->
+  iter_contract valid it ->
+  (forall bs, Permutation (snd (merge bs)) (flat_map snd bs)) ->
+  forall (hdr : list (Z * Z)) (recs : list rec) (in_rgs : list Z),
+  NoDup (map fst hdr) ->
+  (forall r, In r recs -> placed_in (map fst hdr) r = true) ->
+  forall (sc : option cname) (outs done : list (option bam)),
+  pre_stream qflag recs ->
+  job_outputs_sel sort it qflag true true sc skip false hdr recs = Ok outs ->
+  Permutation done outs ->
+  Permutation (map key (map fst (snd (multi_merge merge in_rgs done))))
+              (map key (map norm (expected qflag (filter (rec_kept skip) recs)))).
+Proof. exact multi_sel_as_coded. Qed.
+Print Assumptions C05_sel_conserve_multi_as_coded.
+
+(* one contig per process with the whitelist test, any completion order: exactly the wanted records *)
+Theorem C05_sel_conserve_multi_repaired :
+  forall (sort : list orec -> list orec) (merge : list bam -> bam) (valid : frag -> bool)
+         (it : bool -> bool -> list frag -> list (list frag) * list frag) (qflag : bool) (skip : list cname),
+  (forall l, Permutation (sort l) l) ->
+  iter_contract valid it ->
+  (forall bs, Permutation (snd (merge bs)) (flat_map snd bs)) ->
+  forall (hdr : list (Z * Z)) (recs : list rec) (in_rgs : list Z),
+  NoDup (map fst hdr) ->
+  (forall r, In r recs -> placed_in (map fst hdr) r = true) ->
+  forall (sc : option cname) (outs done : list (option bam)),
+  pre_stream qflag recs ->
+  job_outputs_sel sort it qflag true true sc skip true hdr recs = Ok outs ->
+  Permutation done outs ->
+  Permutation (map key (map fst (snd (multi_merge merge in_rgs done))))
+              (map key (map norm (expected qflag (filter (want_rec sc skip) recs)))).
+Proof. exact multi_sel_repaired. Qed.
+Print Assumptions C05_sel_conserve_multi_repaired.
+
+(* binned mode at contig granularity (each contig that receives tasks is processed as a whole; header
+   lengths positive), any completion order: exactly the wanted records *)
+Theorem C05_sel_conserve_binned :
+  forall (sort : list orec -> list orec) (merge : list bam -> bam) (valid : frag -> bool)
+         (it : bool -> bool -> list frag -> list (list frag) * list frag) (qflag : bool) (skip : list cname),
+  (forall l, Permutation (sort l) l) ->
+  iter_contract valid it ->
+  (forall bs, Permutation (snd (merge bs)) (flat_map snd bs)) ->
+  forall (hdr : list (Z * Z)) (recs : list rec) (in_rgs : list Z),
+  (forall r, In r recs -> placed_in (map fst hdr) r = true) ->
+  forall (sc : option cname) (k : Z) (outs done : list (option bam)),
+  (forall cl, In cl hdr -> 0 < snd cl) ->
+  pre_stream qflag recs ->
+  binned_outputs sort it qflag true true sc skip hdr recs k = Ok outs ->
+  Permutation done outs ->
+  Permutation (map key (map fst (snd (multi_merge merge in_rgs done))))
+              (map key (map norm (expected qflag (filter (want_rec sc skip) recs)))).
+Proof. exact multi_binned_conserve. Qed.
+Print Assumptions C05_sel_conserve_binned.
+
+(* binned mode with the real region tasks, PARTIAL: assuming the tiling contract of C08/C17 (the region tasks
+   of one contig together write what one pass over that contig writes, [tiles]), the merged output is what the
+   passes over the unplaced bin and over the whitelisted header contigs write - for any task output function,
+   any tiling, any chunking, any completion order.  Full statement (not proved here): [tiles] itself, which is
+   C08 (and fails for site-less molecules: known finding D11 of C08) *)
+Theorem C05_sel_binned_records_partial :
+  forall (sort : list orec -> list orec) (merge : list bam -> bam) (bins : Z -> list region)
+         (tout : task -> list orec) (W : cname -> list orec) (hdr : list (Z * Z)) (wl : list cname) (k : Z)
+         (in_rgs : list Z),
+  (forall l, Permutation (sort l) l) ->
+  (forall bs, Permutation (snd (merge bs)) (flat_map snd bs)) ->
+  tout (None, None) = W None ->
+  (forall c len, In (c, len) hdr ->
+     Permutation (flat_map (fun b => tout (Some c, Some b)) (bins len)) (W (Some c))) ->
+  forall done : list (option bam),
+  Permutation done (map (task_job_out sort tout) (binned_jobs bins wl hdr k)) ->
+  Permutation (snd (multi_merge merge in_rgs done))
+              (flat_map W (None :: map (fun cl => Some (fst cl)) (filter (fun cl => cmem (Some (fst cl)) wl) hdr))).
+Proof. exact binned_records. Qed.
+Print Assumptions C05_sel_binned_records_partial.
+
+(* ---- single process and multiprocess select the same records *)
+
+(* AS CODED this holds when only -skip_contig is given (the skipped contigs are scheduled, their records are
+   then dropped by the skip test inside every worker) *)
+Theorem C05_sel_same_skip_as_coded :
+  forall (sort : list orec -> list orec) (merge : list bam -> bam) (valid : frag -> bool)
+         (it : bool -> bool -> list frag -> list (list frag) * list frag) (qflag : bool) (skip : list cname),
+  (forall l, Permutation (sort l) l) ->
+  iter_contract valid it ->
+  (forall bs, Permutation (snd (merge bs)) (flat_map snd bs)) ->
+  forall (hdr : list (Z * Z)) (recs : list rec) (in_rgs : list Z) (b : bam) (outs done : list (option bam)),
+  NoDup (map fst hdr) ->
+  (forall r, In r recs -> placed_in (map fst hdr) r = true) ->
+  pre_stream qflag recs ->
+  coloc recs ->
+  single_sel sort it qflag true true None skip hdr recs = Ok b ->
+  job_outputs_sel sort it qflag true true None skip false hdr recs = Ok outs ->
+  Permutation done outs ->
+  Permutation (map key (map fst (snd b))) (map key (map fst (snd (multi_merge merge in_rgs done)))).
+Proof. exact sel_same_skip_as_coded. Qed.
+Print Assumptions C05_sel_same_skip_as_coded.
+
+(* ... and it FAILS as coded under -contig: on the demo library, -contig 0 in a single process writes the four
+   records of contig 0 and the unplaced pair; one contig per process writes all eight primary records, among
+   them records the selection excludes (D31) *)
+Theorem C05_sel_same_as_coded_refuted :
+  pre_sel (Some (Some 0)) demo_hdr demo_recs = true /\
+  (exists b, single_sel csort demo_it false true true (Some (Some 0)) [] demo_hdr demo_recs = Ok b /\
+             map (fun o : orec => r_id (fst o)) (snd b) = [1; 2; 3; 4; 8; 9]) /\
+  (exists b, multi_sel csort cmerge demo_it false true true (Some (Some 0)) [] false [] demo_hdr demo_recs = Ok b /\
+             map (fun o : orec => r_id (fst o)) (snd b) = [1; 2; 3; 4; 5; 6; 8; 9] /\
+             existsb (fun o : orec => negb (want_rec (Some (Some 0)) [] (fst o))) (snd b) = true).
+Proof. exact sel_same_as_coded_refuted. Qed.
+Print Assumptions C05_sel_same_as_coded_refuted.
+
+(* with the whitelist test in the job loop it holds for every selection that names a header contig *)
+Theorem C05_sel_same_repaired :
+  forall (sort : list orec -> list orec) (merge : list bam -> bam) (valid : frag -> bool)
+         (it : bool -> bool -> list frag -> list (list frag) * list frag) (qflag : bool) (skip : list cname),
+  (forall l, Permutation (sort l) l) ->
+  iter_contract valid it ->
+  (forall bs, Permutation (snd (merge bs)) (flat_map snd bs)) ->
+  forall (sc : option cname) (hdr : list (Z * Z)) (recs : list rec) (in_rgs : list Z),
+  NoDup (map fst hdr) ->
+  (forall r, In r recs -> placed_in (map fst hdr) r = true) ->
+  pre_stream qflag recs ->
+  coloc recs ->
+  forall (b : bam) (outs done : list (option bam)),
+  sc_ok sc (map fst hdr) = true ->
+  single_sel sort it qflag true true sc skip hdr recs = Ok b ->
+  job_outputs_sel sort it qflag true true sc skip true hdr recs = Ok outs ->
+  Permutation done outs ->
+  Permutation (map key (map fst (snd b))) (map key (map fst (snd (multi_merge merge in_rgs done)))).
+Proof. exact sel_same_repaired. Qed.
+Print Assumptions C05_sel_same_repaired.
+
+(* binned mode (contig granularity) selects what the single process selects *)
+Theorem C05_sel_same_binned :
+  forall (sort : list orec -> list orec) (merge : list bam -> bam) (valid : frag -> bool)
+         (it : bool -> bool -> list frag -> list (list frag) * list frag) (qflag : bool) (skip : list cname),
+  (forall l, Permutation (sort l) l) ->
+  iter_contract valid it ->
+  (forall bs, Permutation (snd (merge bs)) (flat_map snd bs)) ->
+  forall (sc : option cname) (hdr : list (Z * Z)) (recs : list rec) (in_rgs : list Z),
+  NoDup (map fst hdr) ->
+  (forall r, In r recs -> placed_in (map fst hdr) r = true) ->
+  pre_stream qflag recs ->
+  coloc recs ->
+  forall (k : Z) (b : bam) (outs done : list (option bam)),
+  (forall cl, In cl hdr -> 0 < snd cl) ->
+  sc_ok sc (map fst hdr) = true ->
+  single_sel sort it qflag true true sc skip hdr recs = Ok b ->
+  binned_outputs sort it qflag true true sc skip hdr recs k = Ok outs ->
+  Permutation done outs ->
+  Permutation (map key (map fst (snd b))) (map key (map fst (snd (multi_merge merge in_rgs done)))).
+Proof. exact sel_same_binned. Qed.
+Print Assumptions C05_sel_same_binned.
+
+(* -contig '*' in a single process (outside [sc_ok]): both iterators of the chain fetch the unplaced bin and
+   every unplaced record is written twice *)
+Theorem C05_sel_single_star_refuted :
+  exists b, single_sel csort demo_it false true true (Some None) [] demo_hdr demo_recs = Ok b /\
+            map (fun o : orec => r_id (fst o)) (snd b) = [8; 8; 9; 9].
+Proof. exact sel_single_star_refuted. Qed.
+Print Assumptions C05_sel_single_star_refuted.
+
+(* ---- with default options (no -contig, no -skip_contig) the selection-aware pipelines ARE the pipelines of
+   the theorems above, and both job loops give the job list of C05_jobs_cover *)
+Theorem C05_sel_default_unchanged :
+  forall (sort : list orec -> list orec) (merge : list bam -> bam)
+         (it : bool -> bool -> list frag -> list (list frag) * list frag) (qflag yi yo honour : bool)
+         (in_rgs : list Z) (hdr : list (Z * Z)) (recs : list rec),
+  single_sel sort it qflag yi yo None [] hdr recs = single sort it qflag yi yo hdr recs /\
+  multi_sel sort merge it qflag yi yo None [] false in_rgs hdr recs = multi sort merge it qflag yi yo in_rgs hdr recs /\
+  cpp_jobs honour None [] (contigs_with_reads hdr recs) = contig_jobs (contigs_with_reads hdr recs).
+Proof.
+  exact (fun sort merge it qflag yi yo honour in_rgs hdr recs =>
+           conj (single_sel_default sort it qflag yi yo hdr recs)
+                (multi_sel_default sort merge it qflag yi yo honour in_rgs hdr recs)).
+Qed.
+Print Assumptions C05_sel_default_unchanged.
+
+(* ---- no exception under a selection: with SAM-conformant flags and a -contig that the header knows *)
+Theorem C05_sel_no_raise :
+  forall sort merge it qflag yi yo sc skip honour in_rgs hdr recs,
+  (forall r, In r recs -> wf_flags r = true) ->
+  (sc_ok sc (map fst hdr) = true -> exists b, single_sel sort it qflag yi yo sc skip hdr recs = Ok b) /\
+  (exists b, multi_sel sort merge it qflag yi yo sc skip honour in_rgs hdr recs = Ok b).
+Proof.
+  exact (fun sort merge it qflag yi yo sc skip honour in_rgs hdr recs H =>
+           conj (single_sel_total sort it qflag yi yo sc skip hdr recs H)
+                (multi_sel_total sort merge it qflag yi yo sc skip honour in_rgs hdr recs H)).
+Qed.
+Print Assumptions C05_sel_no_raise.
+
+(* ---- the boolean precondition evaluated by the check implies the hypotheses above *)
+Theorem C05_sel_pre_sound : forall sc hdr recs qflag, pre_sel sc hdr recs = true ->
+  pre_stream qflag recs /\ NoDup (map fst hdr) /\ (forall r, In r recs -> placed_in (map fst hdr) r = true)
+  /\ (forall r, In r recs -> wf_flags r = true) /\ coloc recs /\ sc_ok sc (map fst hdr) = true.
+Proof. exact pre_sel_sound. Qed.
+Print Assumptions C05_sel_pre_sound.
+
+(* ---- non-vacuity: the demo library satisfies the precondition under -contig 1 and under -skip_contig 0 and
+   runs through all four pipelines (single, one contig per process as coded / repaired, binned); the job
+   lists of the three multiprocess variants for -contig 1 / -skip_contig 0 *)
+Example C05_sel_demo :
+  pre_sel (Some (Some 1)) demo_hdr demo_recs = true /\ pre_sel None demo_hdr demo_recs = true /\
+  (exists b, single_sel csort demo_it false true true (Some (Some 1)) [] demo_hdr demo_recs = Ok b /\
+             map (fun o : orec => r_id (fst o)) (snd b) = [5; 6; 8; 9]) /\
+  (exists b, multi_sel csort cmerge demo_it false true true (Some (Some 1)) [] true [] demo_hdr demo_recs = Ok b /\
+             map (fun o : orec => r_id (fst o)) (snd b) = [5; 6; 8; 9]) /\
+  (exists b, multi_binned csort cmerge demo_it false true true (Some (Some 1)) [] [] demo_hdr demo_recs 1000 = Ok b /\
+             map (fun o : orec => r_id (fst o)) (snd b) = [5; 6; 8; 9]) /\
+  (exists b, single_sel csort demo_it false true true None [Some 0] demo_hdr demo_recs = Ok b /\
+             map (fun o : orec => r_id (fst o)) (snd b) = [5; 6; 8; 9]) /\
+  (exists b, multi_sel csort cmerge demo_it false true true None [Some 0] false [] demo_hdr demo_recs = Ok b /\
+             map (fun o : orec => r_id (fst o)) (snd b) = [5; 6; 8; 9]) /\
+  cpp_jobs true (Some (Some 1)) [] (contigs_with_reads demo_hdr demo_recs) = [[None]; [Some 1]] /\
+  cpp_jobs false (Some (Some 1)) [] (contigs_with_reads demo_hdr demo_recs) = [[None]; [Some 0]; [Some 1]] /\
+  map (map fst) (binned_jobs one_bin (whitelist None [Some 0] (contigs_with_reads demo_hdr demo_recs)) demo_hdr 1000)
+    = [[None]; [Some 1]; []].
+Proof. exact sel_demo_runs. Qed.
+Print Assumptions C05_sel_demo.
